@@ -470,14 +470,15 @@ def judge_program(original, new_code):
     return ('ok', None) if got == want else ('different-result', (want, got))
 
 
-_SCRIPTS = {}
+_PROJECT = []
 
 
 def _script_for(i):
-    """one Script per corpus file and process: the refactorings do not modify the tree"""
-    if i not in _SCRIPTS:
-        _SCRIPTS[i] = _jedi.Script(EXTRACT_CORPUS[i], path='/virtual/m.py', project=_jedi.Project('/virtual'))
-    return _SCRIPTS[i]
+    """a fresh Script per path (an inference state must not carry memo entries from another symbolic path); only the
+    project object, which holds no per-query state, is shared so that no project discovery touches the disk"""
+    if not _PROJECT:
+        _PROJECT.append(_jedi.Project('/virtual'))
+    return _jedi.Script(EXTRACT_CORPUS[i], path='/virtual/m.py', project=_PROJECT[0])
 
 
 class C06c(Obligation):
